@@ -77,15 +77,22 @@ func VerifC03_MaskAlgebra() {
 func VerifC03_NewMaskAndCount() {
 	i0, i1, i2 := vU8("i0"), vU8("i1"), vU8("i2")
 	vassume(int(i0) < maskTotalBits && int(i1) < maskTotalBits && int(i2) < maskTotalBits)
-	m := newMask(ID{i0}, ID{i1}, ID{i2})
+	var m bitMask
+	vmerge(func() { m = newMask(ID{i0}, ID{i1}, ID{i2}) })
 	bit := vU8("bit")
 	vassume(int(bit) < maskTotalBits)
-	vcheck("newmask", m.Get(bit) == (bit == i0 || bit == i1 || bit == i2))
+	var got bool
+	vmerge(func() { got = m.Get(bit) })
+	vcheck("newmask", got == (bit == i0 || bit == i1 || bit == i2))
+	vreach("end")
+}
+
+func VerifC03_TotalBitsSet() {
+	i0, i1 := vU8("i0"), vU8("i1")
+	vassume(int(i0) < maskTotalBits && int(i1) < maskTotalBits)
+	m := newMask(ID{i0}, ID{i1}) // forks over the word of each position
 	distinct := 1
 	if i1 != i0 {
-		distinct++
-	}
-	if i2 != i0 && i2 != i1 {
 		distinct++
 	}
 	vcheck("popcount", m.TotalBitsSet() == distinct)
